@@ -85,16 +85,23 @@ pub struct SinkState {
     pub ops: usize,
     pub fail_at: Option<usize>,
     pub failed: usize,
+    /// the failing operation reports ErrorKind::Interrupted instead of Other
+    pub interrupted: bool,
 }
 
 #[derive(Clone)]
 pub struct Sink(pub Rc<RefCell<SinkState>>);
 
 #[derive(Debug)]
-pub struct SinkErr;
+pub struct SinkErr(pub bool);
 impl embedded_io::Error for SinkErr {
     fn kind(&self) -> embedded_io::ErrorKind {
-        embedded_io::ErrorKind::Other
+        // what kind of error the sink reports must not matter to the library
+        if self.0 {
+            embedded_io::ErrorKind::Interrupted
+        } else {
+            embedded_io::ErrorKind::Other
+        }
     }
 }
 impl embedded_io::ErrorType for Sink {
@@ -106,7 +113,7 @@ impl embedded_io::Write for Sink {
         s.ops += 1;
         if s.fail_at == Some(s.ops) {
             s.failed += 1;
-            return Err(SinkErr);
+            return Err(SinkErr(s.interrupted));
         }
         s.evs.push(SinkEv::W(b.to_vec()));
         Ok(b.len())
@@ -116,7 +123,7 @@ impl embedded_io::Write for Sink {
         s.ops += 1;
         if s.fail_at == Some(s.ops) {
             s.failed += 1;
-            return Err(SinkErr);
+            return Err(SinkErr(s.interrupted));
         }
         s.evs.push(SinkEv::F);
         Ok(())
@@ -253,6 +260,7 @@ const KEYS: &[&[u8]] = &[
     b"a", b"b", b" ", b"-", b"h", b"\"", b"\\", "é".as_bytes(), "€".as_bytes(), "😀".as_bytes(), b"\x08", b"\x09", b"\r", b"\n", b"\r\n", b"\x1b[A",
     b"\x1b[B", b"\x1b[C", b"\x1b[D", b"\x1b[D", b"\x1b[1;5C", b"\x1b[3~", b"\x00", b"\x1b", b"\x7f", b"\xc3", b"\xa9", b"\xff", b"help", b"he", b"--help",
     b"-h", b"--", b"cmd", b"\"\"", b"g", b"ge", b"get-", b"s", b"e", b"get-  \x1b[D\x1b[D\x09", "ст   \x1b[D\x1b[D\x09".as_bytes(), b"get \x1b[D\x09", "ö".as_bytes(), "ст".as_bytes(), "с".as_bytes(), b"\x09", b"\x09",
+    "à".as_bytes(), "Р".as_bytes(), "х".as_bytes(), "\u{a0}he".as_bytes(), "\u{3000}".as_bytes(),
 ];
 
 #[derive(Clone, Debug)]
@@ -297,10 +305,11 @@ fn one_session<C: Names + embedded_cli::service::Autocomplete + embedded_cli::se
     let hcap = if it % 5 == 0 { r.below(6) } else { r.below(40) };
     // a sink that fails once: always when looking for C14, now and then otherwise (C15: what is written after a failed
     // call must still be flushed)
-    let inject = (want(only, "C14") && (only == "C14" || it % 3 == 0)) || (only == "C15" && it % 3 == 0);
+    let inject = (want(only, "C14") && (only == "C14" || it % 3 == 0)) || ((only == "C15" || only == "C04") && it % 3 == 0);
     let sink = Sink(Rc::new(RefCell::new(SinkState::default())));
     if inject {
         sink.0.borrow_mut().fail_at = Some(1 + r.below(60));
+        sink.0.borrow_mut().interrupted = it % 2 == 1;
     }
     let calls = Rc::new(RefCell::new(Vec::new()));
     let outs: Vec<Vec<String>> = vec![
@@ -601,12 +610,12 @@ fn one_session<C: Names + embedded_cli::service::Autocomplete + embedded_cli::se
         };
         // one-step checks do not blame this key when the editor was already inconsistent before it (cursor beyond the
         // line: an earlier defect of another kind)
-        let stepwise = matches!(only, "C06" | "C13" | "C14" | "C15" | "C02" | "C03" | "C10" | "C11" | "C16");
+        let stepwise = matches!(only, "C06" | "C13" | "C14" | "C15" | "C02" | "C03" | "C04" | "C10" | "C11" | "C16");
         let pre_corrupt = stepwise && pre_real_cursor > pre_real_len;
         if (rt.clone(), rc) != after && !pre_corrupt && (only.is_empty() || line_props.contains(&only)) {
             return Some(Cex { input: trace, expected: format!("line {:?} cursor {}", after.0, after.1), actual: format!("line {:?} cursor {}", rt, rc) });
         }
-        if (rt.clone(), rc) != after && matches!(only, "C06" | "C13" | "C14" | "C15" | "C02" | "C03" | "C10" | "C11" | "C16") {
+        if (rt.clone(), rc) != after && matches!(only, "C06" | "C13" | "C14" | "C15" | "C02" | "C03" | "C04" | "C10" | "C11" | "C16") {
             // checks of one step at a time (display, framing, flushing, failures, history recall, completion, features)
             // follow the real editor after every key, so that an earlier divergence is not counted again; checks about
             // what the line should be after *everything* typed so far (C01, C05, C07, C08, C12, C17) keep the ideal model
@@ -630,7 +639,7 @@ fn one_session<C: Names + embedded_cli::service::Autocomplete + embedded_cli::se
             if to_handler {
                 exp_calls.push((String::from_utf8(toks[0].clone()).unwrap(), classify(&toks[1..])));
             }
-            if *calls.borrow() != exp_calls && (want(only, "C01") || want(only, "C12") || want(only, "C07") || want(only, "C08") || want(only, "C16")) {
+            if *calls.borrow() != exp_calls && (want(only, "C01") || want(only, "C12") || want(only, "C07") || want(only, "C08") || want(only, "C16") || only == "C04" || only == "C14") {
                 return Some(Cex {
                     input: trace,
                     expected: format!("handler calls {:?}", exp_calls),
@@ -659,7 +668,8 @@ fn one_session<C: Names + embedded_cli::service::Autocomplete + embedded_cli::se
                     return Some(Cex { input: trace, expected: format!("sink receives {}", esc(&e)), actual: esc(&a) });
                 }
             }
-        } else if calls.borrow().len() != exp_calls.len() && want(only, "C01") {
+        } else if calls.borrow().len() != exp_calls.len() && (want(only, "C01") || only == "C04" || only == "C14") {
+            // (C04: which keys are Enter depends on the bytes only; C14: after a failure later input is decoded normally)
             return Some(Cex { input: trace, expected: "no handler call for this key".into(), actual: format!("{:?}", calls.borrow().last()) });
         }
         // C15
